@@ -12,7 +12,7 @@ import Mathlib.Tactic.Ring
 all the algebra of the BP proof (Fubini, permutation of the summed attributes, pulling out factors
 that ignore the summed attributes, positivity) is done on `nsum`.
 -/
-namespace PGM.Sem
+namespace PGM.Sem.BP
 open PGM
 set_option linter.unusedSectionVars false
 set_option linter.unusedSimpArgs false
@@ -308,4 +308,4 @@ theorem nsum_prod_factor {β : Type} (d : Dom) (Ks : List β) (B : β → List A
     rw [nsum_mul_left d (B k) σ h (g k) (hh k (by simp))]
     ring
 
-end PGM.Sem
+end PGM.Sem.BP
